@@ -215,6 +215,51 @@ func BasePrograms() []*Program {
 			{{Op: "afterfunc"}},
 		},
 	})
+	// D4: flush groups with several waiters of different channel kinds (in every order), one group in the wedged flush
+	// worker's hands and one queued behind it when Stop's deadline expires: whatever is delivered at or after the abort,
+	// every waiter that can take a value gets one
+	for _, kind := range []string{"create", "close", "update"} {
+		for oi, order := range [][]string{{"aband", "buf", "unbuf"}, {"buf", "aband", "unbuf"}, {"unbuf", "buf", "aband"}} {
+			ps = append(ps, &Program{
+				Name: fmt.Sprintf("D4-mixed-waiters-%s-%d", kind, oi),
+				Cfg:  Cfg{IBS: 4, MBRows: 3},
+				Calls: []Call{rowsCall(1, order[0], 1, 1), rowsCall(2, order[1], 1, 1), rowsCall(3, order[2], 1, 1),
+					rowsCall(4, order[0], 1, 1), rowsCall(5, order[1], 1, 1), rowsCall(6, order[2], 1, 1)},
+				Faults: []Fault{{Kind: kind, Nth: 1, Mode: "wedge"}},
+				Phases: [][]Op{
+					{{Op: "start"}},
+					{calls("c1", 1, 2, 3)},
+					{calls("c2", 4, 5, 6)},
+					{{Op: "stop", Mode: "custom"}},
+					{{Op: "deadline"}},
+					{{Op: "unwedge"}},
+					{{Op: "afterfunc"}},
+				},
+			})
+		}
+	}
+	// A4: overlapping Flush callers behind a backed-up actor (one flush wedged in the store, one queued, a third being
+	// handed over): a batch accepted after the first Flush was sent and before the second Flush is called
+	for _, kind := range []string{"create", "close", "update"} {
+		ps = append(ps, &Program{
+			Name: "A4-flush-overlap-" + kind,
+			Cfg:  Cfg{IBS: 4, MBRows: 1},
+			Calls: []Call{rowsCall(1, "buf", 1, 1), rowsCall(2, "buf", 1, 1), rowsCall(3, "buf", 1, 1), {ID: 4, Kind: "force", Chan: "buf"},
+				rowsCall(5, "buf", 1, 1), {ID: 6, Kind: "force", Chan: "buf"}},
+			Faults: []Fault{{Kind: kind, Nth: 1, Mode: "wedge"}},
+			Phases: [][]Op{
+				{{Op: "start"}},
+				{calls("c1", 1)},
+				{calls("c1", 2)},
+				{calls("c1", 3)},
+				{calls("c2", 4)},
+				{calls("c3", 5)},
+				{calls("c3", 6)},
+				{{Op: "unwedge", Mode: kind + "#1"}},
+				{{Op: "stop", Mode: "nodeadline"}},
+			},
+		})
+	}
 	return ps
 }
 
